@@ -524,8 +524,8 @@ def root_cause(macro, goal_json, goalT, feats, asserted):
         # the only way from const_inequality into Python floats: real_eval gives up (sqrt, pi, ..., a real power whose
         # exponent is not a Python int) and real_approx_eval takes over
         return 'float-compare'
-    if 'non-integer-exponent' in feats:
-        return 'float-power'
+    if macro == 'real_norm' and 'non-integer-exponent' in feats:
+        return 'float-power'      # convert_to_poly: Fraction ** Fraction leaves the rationals
     return 'in-domain'
 
 
@@ -687,8 +687,10 @@ def alt_value(e, trunc, conf=None):
     return None
 
 
-def strategies():
+def strategies(deep=False):
     from hypothesis import strategies as st
+
+    DEPTHS = [1, 2, 3, 3, 4, 5, 6] if deep else [1, 2, 2, 3, 3, 4]
 
     small = st.integers(0, 12)
     big = st.one_of(
@@ -722,8 +724,9 @@ def strategies():
         base = [o for o in allowed if o in understood]
         if noise or not base:
             base = list(allowed)
-        # arithmetic core weighted up
-        return base + [o for o in base if o in ('plus', 'minus', 'times', 'minus')]
+        # arithmetic core weighted up; transcendental functions weighted up where the macro knows them
+        extra = ['fn', 'fn', 'fn', 'pi'] if ('fn' in base and 'fn' in understood) else []
+        return base + [o for o in base if o in ('plus', 'minus', 'times', 'minus')] + extra
 
     @st.composite
     def expr(draw, T, understood, depth, var_pool=None):
@@ -801,7 +804,7 @@ def strategies():
         spec = MACROS[macro]
         intended = spec['ty']
         T = intended if draw(st.integers(0, 9)) < 6 else draw(st.sampled_from([x for x in TYPES if x != intended]))
-        depth = draw(st.sampled_from([1, 2, 2, 3, 3, 4]))
+        depth = draw(st.sampled_from(DEPTHS))
         lhs = draw(expr(T, spec['ops'], depth))
         v = value_of(lhs)
         mode = draw(st.sampled_from(['true', 'true', 'true', 'true', 'alt', 'alt', 'alt', 'confuse', 'confuse', 'confuse',
@@ -1006,8 +1009,16 @@ def strategies():
         walk2(e, ())
         import json
         if ground and want_ground:
-            # a ground subterm replaced by its value under a wrong semantics
-            p = draw(st2.sampled_from(ground))
+            # a ground subterm replaced by its value under a wrong semantics; prefer subterms on which the two
+            # subtraction rules disagree
+            sens = []
+            for q in ground:
+                node = e
+                for i in q:
+                    node = node[i]
+                if alt_value(node, True) != alt_value(node, False):
+                    sens.append(q)
+            p = draw(st2.sampled_from(sens if sens and draw(st2.integers(0, 3)) else ground))
             e = json.loads(json.dumps(e))
             cur = e
             for i in p[:-1]:
@@ -1051,7 +1062,7 @@ def strategies():
 
     @st.composite
     def norm_case(draw):
-        depth = draw(st.sampled_from([2, 3, 3, 4]))
+        depth = draw(st.sampled_from(DEPTHS[1:]))
         lhs = draw(poly_expr(depth))
         T = build_type(lhs) or 'real'
         rhs = rearrange(draw, lhs, [draw(st.integers(1, 8))])
@@ -1158,29 +1169,141 @@ def strategies():
     return for_macro
 
 
+# ---------------------------------------------------------------------------------------------- small enumerated domain
+SMALL_LEAVES = {'nat': [0, 1, 3], 'int': [0, 2, -3], 'real': [0, 2, -3, Fraction(1, 2)]}
+SMALL_LEAVES_THOROUGH = {'nat': [0, 1, 2, 3], 'int': [0, 1, 2, -3], 'real': [0, 1, 2, -3, Fraction(1, 2)]}
+SMALL_BINOPS = {'nat': ['plus', 'minus', 'times'], 'int': ['plus', 'minus', 'times'],
+                'real': ['plus', 'minus', 'times', 'div', 'rpow']}
+
+
+def small_exprs(T, LEAVES=None):
+    """Every expression with one or two nested binary operators over SMALL_LEAVES[T] (both nestings), every
+    one-operator expression under each unary operator, powers with exponents 0, 2, 3, and of_nat / of_int of
+    one-operator natural / integer expressions."""
+    LEAVES = LEAVES or SMALL_LEAVES
+    L = [_num(T, v) for v in LEAVES[T]]
+    B = [[op, a, b] for op in SMALL_BINOPS[T] for a in L for b in L]
+    out = list(B)
+    for a in L:
+        for n in (0, 2, 3):
+            out.append(['pow', a, _num('nat', n)])
+    unary = ['suc'] if T == 'nat' else ['neg'] if T == 'int' else ['neg', 'inv']
+    for u in unary:
+        out += [[u, a] for a in L] + [[u, e] for e in B]
+    for op in SMALL_BINOPS[T]:
+        for e in B:
+            for c in L:
+                out.append([op, e, c])
+                out.append([op, c, e])
+    if T != 'nat':
+        NL = [_num('nat', v) for v in LEAVES['nat']]
+        NB = [[op, a, b] for op in SMALL_BINOPS['nat'] for a in NL for b in NL]
+        for nb in NB:
+            out.append(['of_nat', T, nb])
+            out.append(['plus', ['of_nat', T, nb], L[1]])
+    if T == 'real':
+        IL = [_num('int', v) for v in LEAVES['int']]
+        for ib in [[op, a, b] for op in SMALL_BINOPS['int'] for a in IL for b in IL]:
+            out.append(['of_int', ib])
+    if T != 'nat':
+        # the numeral 1 (special-cased in many places) and, for reals, the only "n / 0" shapes that holpy regards as
+        # numerals in normal form: 1 / 0 and -(1 / 0)
+        one = _num(T, 1)
+        specials = [one]
+        if T == 'real':
+            d0 = ['div', one, _num(T, 0)]
+            specials += [d0, ['neg', d0]]
+            out += [d0, ['neg', d0], ['inv', d0], ['div', one, ['minus', one, one]]]
+        for sp in specials:
+            for op in SMALL_BINOPS[T]:
+                for c in L + [one]:
+                    out.append([op, sp, c])
+                    out.append([op, c, sp])
+    return out
+
+
+def small_cases(macro, T, LEAVES=None):
+    """Deterministic enumeration: every small expression of type T against its true value, against its value
+    under wrong semantics (other truncation rule, operator confusions) and against value + 1; the relation rotates
+    through the relations the macro is written for (negated every third time where the macro handles negation)."""
+    spec = MACROS[macro]
+    rels = list(spec['rels']) if spec['rels'] != ('iff',) else ['eq']
+    idx = 0
+    for e in small_exprs(T, LEAVES):
+        try:
+            v = arith.eval_num(build_expr(e)[0])
+        except CaseInvalid:
+            continue
+        cands = []
+        if isinstance(v, Fraction):
+            cands.append(v)
+        for tr in (True, False):
+            for c in (None,) + CONFUSIONS:
+                w = alt_value(e, tr, c)
+                if w is not None and _clamp(T, w) == w and w not in cands:
+                    cands.append(w)
+        cands = cands[:3]
+        if isinstance(v, Fraction) and v + 1 not in cands:
+            cands.append(v + 1)
+        for r in cands:
+            try:
+                rhs = _num(T, r)
+            except _TooBig:
+                continue
+            rel = rels[idx % len(rels)]
+            g = [rel, e, rhs] if idx % 4 else [rel, rhs, e]
+            if spec['neg'] and idx % 3 == 0:
+                g = ['not', g]
+            idx += 1
+            yield {'macro': macro, 'goal': g}
+
+
 # ---------------------------------------------------------------------------------------------- exploration
-QUICK = {'nat_eval': 2000, 'int_eval': 2000, 'int_const_ineq': 2000, 'real_eval': 2400, 'real_const_eq': 2000,
-         'real_compare': 2000, 'real_const_ineq': 2000, 'const_inequality': 3000, 'real_norm': 2400,
-         'real_eq_comparison': 400}
-THOROUGH_FACTOR = 16
+QUICK = {'nat_eval': 600, 'int_eval': 600, 'int_const_ineq': 600, 'real_eval': 800, 'real_const_eq': 600,
+         'real_compare': 600, 'real_const_ineq': 600, 'const_inequality': 1200, 'real_norm': 1200,
+         'real_eq_comparison': 300}
+THOROUGH_FACTOR = 30
 
 
 def shards(tier):
     out = []
     for macro, n in QUICK.items():
         if tier == 'quick':
-            k = 3 if macro not in ('real_eq_comparison', 'const_inequality') else 6 if macro == 'real_eq_comparison' else 4
+            k = 6 if macro == 'real_eq_comparison' else 4 if macro in ('const_inequality', 'real_norm') else 2
         else:
             n, k = n * THOROUGH_FACTOR, 16
         for i, cnt in enumerate(harness.split(n, k)):
-            out.append({'macro': macro, 'n': cnt, 'i': i})
+            out.append({'kind': 'random', 'macro': macro, 'n': cnt, 'i': i})
+    for macro in MACROS:
+        if macro != 'real_eq_comparison':
+            for T in TYPES:
+                if T not in (MACROS[macro]['ty'], 'nat') and macro in ('int_const_ineq', 'real_const_ineq', 'real_norm'):
+                    continue        # these three check the goal type first: of the foreign types only nat is enumerated
+                parts = (3 if T == 'real' else 1) * (1 if tier == 'quick' else 4)
+                for part in range(parts):
+                    out.append({'kind': 'small', 'macro': macro, 'ty': T, 'part': part, 'parts': parts})
     # slow shards first so that the pool stays balanced
-    out.sort(key=lambda d: (d['macro'] != 'real_eq_comparison', d['macro'] != 'real_norm'))
+    out.sort(key=lambda d: (d.get('macro') != 'real_eq_comparison', d['kind'] != 'random'))
     return out
 
 
 def run_shard(desc, seed, tier, H):
-    strat = strategies()(desc['macro'])
+    if desc['kind'] == 'small':
+        n = 0
+        leaves = SMALL_LEAVES if tier == 'quick' else SMALL_LEAVES_THOROUGH
+        for j, case in enumerate(small_cases(desc['macro'], desc['ty'], leaves)):
+            if j % desc.get('parts', 1) != desc.get('part', 0):
+                continue
+            run_case(case, H)
+            n += 1
+        H.note('small_enumerated_cases', n)
+        if desc.get('part', 0) == 0:
+            H.mark_exhaustive('%s at %s: every expression with <= 2 nested binary operators over the leaves %s '
+                              '(+ - * / real-power, Suc uminus inverse, ^0 ^2 ^3, of_nat, of_int, 1/0) against its true '
+                              'value, its value under wrong semantics, and value + 1'
+                              % (desc['macro'], desc['ty'], {k: [str(x) for x in v] for k, v in leaves.items()}))
+        return
+    strat = strategies(deep=(tier == 'thorough'))(desc['macro'])
 
     def body(case):
         try:
